@@ -33,8 +33,8 @@ const (
 func VerifTagNameConfined() { verifTagFlow(false) }
 
 // VerifFindingTagDotDot: the same request flow restricted to the tag whose
-// decoded form is ".." (FINDINGS.md): the tag store writes into the parent of
-// its cache directory.
+// decoded form is ".." (FINDINGS.md F1, fixed in /repo by d7bcd7f: regression
+// check).
 func VerifFindingTagDotDot() { verifTagFlow(true) }
 
 // VerifDecodedTagConfined: the same flow starting from the decoded tag, for
@@ -68,8 +68,10 @@ func verifTagFlowFrom(finding, decoded bool) {
 		verif.Reach("rejected-by-parse")
 		return
 	}
-	// The decoded tag ".." is a recorded finding with its own harness.
-	verif.Assume((tag == "..") == finding)
+	if finding {
+		// regression check of the fixed finding F1: only the decoded tag ".."
+		verif.Assume(tag == "..")
+	}
 
 	perr := ts.Put(context.Background(), tag, d, 0)
 	verif.Cover("put-ok", perr == nil)
